@@ -64,7 +64,7 @@ OUTSIDE = [
     "active_set_nnls on singular Gram data (raises LinAlgError)",
 ]
 TRUSTED = ["z3", "contract stubs = statements of the unit obligations", "SVD/QR havoc stubs (arbitrary signed outputs)", "RNG stub (random_sample in [0,1))"]
-ASSUMPTIONS = ["real arithmetic", "user initialisations entrywise non-negative on the declared modes", "sparsity coefficients >= 0", "divisions defined unless stated as obligation"]
+ASSUMPTIONS = ["real arithmetic", "configs named .../nondegenerate/...: the Gram diagonal of every inner hals_nnls problem is non-zero (no identically-zero factor column), otherwise hals_nnls leaves the signed SVD start of PARAFAC2 mode 2 untouched", "user initialisations entrywise non-negative on the declared modes", "sparsity coefficients >= 0", "divisions defined unless stated as obligation"]
 
 
 # ------------------------------------------------------------------------------------------------ configurations
@@ -104,14 +104,16 @@ def configs(tier):
         add(f"unit/fista/list/core2x2/it{it}", fn="u_fista", form="list", r=2, n=2, it=it)
     for r in (1, 2):
         for start in ("cold", "warm"):
+            if q and r == 2 and start == "warm":
+                continue  # ~100 s; the same run is part of C13 (obligation `nonneg` at every return)
             add(f"unit/active_set/r{r}/{start}", fn="u_active", r=r, m=r, start=start, mode="fork", niter={1: 2, 2: 3}[r], max_paths=20000)
     for nn in ("all", "dict"):
         for it in (1, 2):
             add(f"unit/admm/nn_{nn}/it{it}", fn="u_admm", nn=nn, it=it)
     for nnm in ([0], [2], [0, 2], [1], [0, 1, 2], "all"):
         add(f"unit/line_step/nn_{_nm(nnm)}", fn="u_line", nn_modes=nnm)
-    for ru, rv in itertools.product((0, 1), (0, 1)):
-        add(f"unit/svd_interface_nn/2x2/refl{ru}{rv}", fn="u_svdnn", ru=ru, rv=rv, mode="fork")
+    for ru, rv, su, sv in itertools.product((0, 1), repeat=4):
+        add(f"unit/svd_interface_nn/2x2/refl{ru}{rv}/sign{su}{sv}", fn="u_svdnn", ru=ru, rv=rv, su=su, sv=sv)
 
     # ---- (2) loop obligations
     shapes = [(2, 2), (2, 2, 2)] + ([] if q else [(3, 2, 2)])
@@ -121,6 +123,8 @@ def configs(tier):
             for init in ("svd", "random", "user"):
                 for it in its:
                     for norm in (0, 1):
+                        if _heavy(shp, R, init) and (it > (0 if q else 1) or norm):
+                            continue  # 512+ paths through svd_flip / NNDSVD per mode
                         if len(shp) == 3 and R == 2 and it >= 2 and q and norm:
                             continue
                         add(f"loop/nn_cp_mu/{_sh(shp)}/R{R}/init_{init}/norm{norm}/it{it}", fn="l_cp_mu", shape=shp, R=R, init=init, it=it, norm=norm)
@@ -131,33 +135,59 @@ def configs(tier):
                     for nnm in ["all", None] + ([[0], [1], [0, 1]] if len(shp) == 2 else [[0], [1, 2], [0, 2]]):
                         if init != "user" and nnm not in ("all", [0]) and q:
                             continue
-                        add(f"loop/nn_cp_hals/{_sh(shp)}/R{R}/init_{init}/nn_{_nm(nnm)}/it{it}", fn="l_cp_hals", shape=shp, R=R, init=init, it=it, nn_modes=nnm, norm=0, sp=0, mode="fork")
-            add(f"loop/nn_cp_hals/{_sh(shp)}/R{R}/init_svd/nn_all/norm1_sp1/it2", fn="l_cp_hals", shape=shp, R=R, init="svd", it=2, nn_modes="all", norm=1, sp=1, mode="fork")
-            add(f"loop/nn_cp_hals/{_sh(shp)}/R{R}/init_user/nn_all/norm1_sp1/it1", fn="l_cp_hals", shape=shp, R=R, init="user", it=1, nn_modes="all", norm=1, sp=1, mode="fork")
+                        if _heavy(shp, R, init) and (q or it > 1 or nnm != "all"):
+                            continue
+                        add(f"loop/nn_cp_hals/{_sh(shp)}/R{R}/init_{init}/nn_{_nm(nnm)}/it{it}", fn="l_cp_hals", shape=shp, R=R, init=init, it=it, nn_modes=nnm, norm=0, sp=0)
+            i2 = "random" if _heavy(shp, R, "svd") else "svd"
+            add(f"loop/nn_cp_hals/{_sh(shp)}/R{R}/init_{i2}/nn_all/norm1_sp1/it2", fn="l_cp_hals", shape=shp, R=R, init=i2, it=2, nn_modes="all", norm=1, sp=1)
+            add(f"loop/nn_cp_hals/{_sh(shp)}/R{R}/init_user/nn_all/norm1_sp1/it1", fn="l_cp_hals", shape=shp, R=R, init="user", it=1, nn_modes="all", norm=1, sp=1)
     for shp in shapes:
         for R in (1, 2):
             for init in ("svd", "random"):
                 for it in its:
                     for norm in (0, 1):
+                        if _heavy(shp, R, init) and (it > (0 if q else 1) or norm):
+                            continue
                         if len(shp) == 3 and R == 2 and it >= 2 and q:
                             continue
-                        add(f"loop/nn_tucker_mu/{_sh(shp)}/R{R}/init_{init}/norm{norm}/it{it}", fn="l_tk_mu", shape=shp, R=R, init=init, it=it, norm=norm, mode="fork")
+                        add(f"loop/nn_tucker_mu/{_sh(shp)}/R{R}/init_{init}/norm{norm}/it{it}", fn="l_tk_mu", shape=shp, R=R, init=init, it=it, norm=norm)
                 for alg in ("fista", "active_set"):
                     for it in (0, 1, 2):
                         for norm in (0, 1):
-                            add(f"loop/nn_tucker_hals/{alg}/{_sh(shp)}/R{R}/init_{init}/norm{norm}/it{it}", fn="l_tk_hals", shape=shp, R=R, init=init, it=it, norm=norm, alg=alg, mode="fork")
+                            if _heavy(shp, R, init) and (q or it > 1 or norm):
+                                continue
+                            if q and init == "svd" and R == 2 and ((it == 2 and norm) or (it == 1 and not norm)):
+                                continue
+                            add(f"loop/nn_tucker_hals/{alg}/{_sh(shp)}/R{R}/init_{init}/norm{norm}/it{it}", fn="l_tk_hals", shape=shp, R=R, init=init, it=it, norm=norm, alg=alg)
     for shp in shapes:
         for R in (1, 2):
             for init in ("svd", "random", "user"):
                 for it in (0, 1, 2):
                     for nnm in ["all"] + ([[0], [1]] if len(shp) == 2 else [[0], [1, 2]]):
-                        add(f"loop/constrained_cp/{_sh(shp)}/R{R}/init_{init}/nn_{_nm(nnm)}/it{it}", fn="l_ccp", shape=shp, R=R, init=init, it=it, nn_modes=nnm, mode="fork")
+                        if q and _heavy(shp, R, init) and it == 2 and nnm != "all":
+                            continue
+                        add(f"loop/constrained_cp/{_sh(shp)}/R{R}/init_{init}/nn_{_nm(nnm)}/it{it}", fn="l_ccp", shape=shp, R=R, init=init, it=it, nn_modes=nnm)
     for R in (1, 2):
         for init in ("svd", "random", "user"):
             for it in (0, 1, 2):
                 for nnm in ("all", [0], [2], [0, 2], [1]):
-                    add(f"loop/parafac2/R{R}/init_{init}/nn_{_nm(nnm)}/it{it}", fn="l_pf2", R=R, init=init, it=it, nn_modes=nnm, mode="fork")
+                    dec2 = nnm == "all" or 2 in nnm
+                    if init == "svd" and it == 0 and q and (R, _nm(nnm)) not in ((1, "m2"), (2, "all"), (2, "m02"), (1, "m0"), (2, "m1")):
+                        continue
+                    if init == "svd" and it == 0:
+                        # the initialisation is what is returned: run on slices generated from the SVD of their cross-product
+                        add(f"loop/parafac2/R{R}/init_svdgen/nn_{_nm(nnm)}/it0", fn="l_pf2", R=R, init="svdgen", it=0, nn_modes=nnm, cost=100)
+                    elif init == "svd" and dec2:
+                        # C starts as signed singular vectors; hals_nnls skips rows with a zero Gram diagonal, so the sign proof for
+                        # mode 2 needs the inner problems to be non-degenerate (no identically-zero factor column)
+                        add(f"loop/parafac2/R{R}/init_svd/nondegenerate/nn_{_nm(nnm)}/it{it}", fn="l_pf2", R=R, init="svd", it=it, nn_modes=nnm, nondeg=True)
+                    else:
+                        add(f"loop/parafac2/R{R}/init_{init}/nn_{_nm(nnm)}/it{it}", fn="l_pf2", R=R, init=init, it=it, nn_modes=nnm)
     return out
+
+
+def _heavy(shp, R, init):
+    return len(shp) >= 3 and R == 2 and init == "svd"
 
 
 def _sh(shp):
@@ -211,7 +241,7 @@ def prove_defined(E, name, arrays):
 
 
 # ---- contract stubs (symbolic mode only): exactly the facts of the unit obligations -------------------------------
-def stub_hals(E):
+def stub_hals(E, assume_nondegenerate=False):
     from vt import backend, sym
 
     def hals_nnls(UtM, UtU, V=None, n_iter_max=500, tol=1e-8, sparsity_coefficient=None, ridge_coefficient=None, nonzero_rows=False, exact=False, epsilon=0.0, callback=None):
@@ -220,6 +250,8 @@ def stub_hals(E):
         V = sym.sarr(V)
         out = np.empty(V.shape, dtype=object)
         for k in range(V.shape[0]):
+            if assume_nondegenerate:
+                E.assume(UtU[k, k] != 0)  # stated in the config key and in ASSUMPTIONS
             fresh = backend.fresh_array("hals", (V.shape[1],), nn=True)
             for c in range(V.shape[1]):
                 out[k, c] = sym.ite(UtU[k, k] != 0, fresh[c], V[k, c])
@@ -352,7 +384,7 @@ def h_u_admm(E, cfg):
     d0 = E.real("d0", (n, r))
     nn = True if cfg["nn"] == "all" else {1: True}
     for order, constrained in ((0, cfg["nn"] == "all"), (1, True)):
-        x, xs, d = AD.admm(UtM, UtU, tl.copy(x0), tl.copy(d0), n_iter_max=cfg["it"], n_const=3, order=order, non_negative=nn, tol=E.real("tol", nn=True))
+        x, xs, d = AD.admm(UtM, UtU, tl.copy(x0), tl.copy(d0), n_iter_max=cfg["it"], n_const=3, order=order, non_negative=nn, tol=0)
         E.prove(f"order{order}/shape", np.shape(x) == (n, r))
         if constrained:
             nonneg(E, f"order{order}/x_nonneg", x)
@@ -395,8 +427,9 @@ def _rot(t):
 def gen_svd_2x2(E, cfg):
     """a 2x2 matrix generated from its SVD: M = U diag(S) Vt with U, V rotations (half-angle parameters) optionally reflected,
     S0 > S1 > 0 -- so that in the replay the real LAPACK SVD of M is (U, S, Vt) up to the column signs that svd_flip canonicalises"""
-    tu = E.real("tu", lo=-1, hi=1)
-    tv = E.real("tv", lo=-1, hi=1)
+    # half-angle parameters kept away from 0 and +-1 (no exactly-zero entry, which a float SVD could not reproduce); signs by config
+    tu = E.real("tu", lo=0.125, hi=0.875) * (-1 if cfg.get("su") else 1)
+    tv = E.real("tv", lo=0.125, hi=0.875) * (-1 if cfg.get("sv") else 1)
     S = E.real("S", (2,), pos=True)
     E.assume(E.gt_strict(S[0], S[1]))
     U = _rot(tu)
@@ -537,23 +570,63 @@ def h_l_ccp(E, cfg):
     _check_cp(E, res, dec, R, shape)
 
 
-def h_l_pf2(E, cfg):
-    from vt import backend
+def _lenient_validate_parafac2(parafac2_tensor):
+    from tensorly.parafac2_tensor import Parafac2Tensor
 
-    _setup(E, cfg)
+    if isinstance(parafac2_tensor, Parafac2Tensor):
+        return parafac2_tensor.shape, parafac2_tensor.rank
+    weights, factors, projections = parafac2_tensor
+    rank = int(np.shape(factors[0])[1])
+    assert all(np.shape(f)[1] == rank for f in factors) and all(np.shape(p)[1] == rank for p in projections)
+    shape = tuple((np.shape(p)[0], *[np.shape(f)[0] for f in factors[2:]]) for p in projections)
+    return shape, rank
+
+
+def h_l_pf2(E, cfg):
+    from vt import backend, sym
+
+    if E.symbolic:
+        import tensorly.parafac2_tensor as p2t
+
+        backend.configure(svd="havoc", qr="havoc", solve="havoc")
+        sym.CTX.intern_roots = False
+        # Parafac2Tensor validates P'P = I numerically; with havoc'd SVD factors that test is meaningless: shape-only validator
+        backend.patch(p2t, "_validate_parafac2_tensor", _lenient_validate_parafac2)
+        if hasattr(_parafac2, "_validate_parafac2_tensor"):
+            backend.patch(_parafac2, "_validate_parafac2_tensor", _lenient_validate_parafac2)
     R = cfg["R"]
     dec = declared(cfg["nn_modes"], 3)
-    slices = [E.real(f"X{i}", (2, 2)) for i in range(2)]
-    if cfg["init"] == "user":
+    init = cfg["init"]
+    if init == "svdgen":
+        # slices X_i = diag(d_i) W' with W a rotation: the cross-product sum_i X_i'X_i = W diag(s) W', s_k = sum_i d_i[k]^2
+        tw = E.real("tw", lo=-1, hi=1)
+        E.assume(E.ge(abs(tw), 0.125))
+        E.assume(E.le(abs(tw), 0.875))
+        W = _rot(tw)
+        d = [E.real(f"d{i}", (2,)) for i in range(2)]
+        s = [d[0][k] * d[0][k] + d[1][k] * d[1][k] for k in range(2)]
+        E.assume(E.gt_strict(s[0], s[1]))
+        E.assume(E.gt_strict(s[1], 0))
+        slices = [_arr(E, np.array([[d[i][j] * W[k][j] for k in range(2)] for j in range(2)], dtype=object)) for i in range(2)]
+        if E.symbolic:
+            sym.CTX.dens.clear()
+            K = np.dot(np.asarray(slices[0]).T, np.asarray(slices[0])) + np.dot(np.asarray(slices[1]).T, np.asarray(slices[1]))
+            Wm = sym.sarr(np.array(W, dtype=object))
+            backend.POLICY.tables["svd"].append(((sym.sarr(K),), (Wm, sym.sarr(np.array(s, dtype=object)), sym.sarr(np.asarray(Wm).T.copy()))))
+        init = "svd"
+    else:
+        slices = [E.real(f"X{i}", (2, 2)) for i in range(2)]
+    if init == "user":
         w = _arr(E, np.ones(R))
         fs = [E.real("A", (2, R), nn=0 in dec), E.real("B", (R, R), nn=1 in dec), E.real("C", (2, R), nn=2 in dec)]
-        projs = [E.real(f"P{i}", (2, R)) for i in range(2)]
+        tp = [E.real(f"tp{i}", lo=-1, hi=1) for i in range(2)]
+        projs = [_arr(E, np.array(_rot(t), dtype=object)[:, :R]) for t in tp]
+        if E.symbolic:
+            sym.CTX.dens.clear()
         init = (w, fs, projs)
-    else:
-        init = cfg["init"]
     if E.symbolic:
-        backend.patch(_nn_cp, "hals_nnls", stub_hals(E))
-    res = _parafac2.parafac2(slices, R, n_iter_max=cfg["it"], init=init, tol=0 if cfg["it"] < 2 else E.real("tol", pos=True), nn_modes=cfg["nn_modes"], random_state=7, n_iter_parafac=1, linesearch=True)
+        backend.patch(_nn_cp, "hals_nnls", stub_hals(E, assume_nondegenerate=bool(cfg.get("nondeg"))))
+    res = _parafac2.parafac2(slices, R, n_iter_max=cfg["it"], init=init, tol=0 if (cfg["it"] < 2 or R > 1) else E.real("tol", pos=True), nn_modes=cfg["nn_modes"], random_state=7, n_iter_parafac=1, linesearch=True)
     w, fs, projs = res
     E.prove("shapes", np.shape(w) == (R,) and [np.shape(f) for f in fs] == [(2, R), (R, R), (2, R)])
     nonneg(E, "weights_nonneg", w)
